@@ -44,12 +44,12 @@ def build_space(tier, for_c16=False):
     structs = []
     sseen = set()
     for t in trees:
-        for s in shapes.contexts(t, offsets, reversed_decl_offsets=(3,)):
+        for s in shapes.contexts(t, offsets, reversed_decl_offsets=(() if for_c16 else (3,))):
             transitions += 1
             if s not in sseen:
                 sseen.add(s)
                 structs.append(s)
-    for s in shapes.field_sequences(seq_reps, seq_len, reversed_ids=True):
+    for s in shapes.field_sequences(seq_reps, seq_len, reversed_ids=not for_c16):
         transitions += 1
         if s not in sseen:
             sseen.add(s)
